@@ -2489,6 +2489,15 @@ void parse_block(EbDecHandle *dec_handle, ParseCtxt *parse_ctx, uint32_t mi_row,
     mode->sb_type = subsize;
 
     mode_info(dec_handle, &part_info, parse_ctx);
+#ifdef SVT_AV1_VERIF
+    svt_verif_dec_tool_note(!is_inter_block(mode) && (mode->palette_size[0] > 0 || mode->palette_size[1] > 0),
+                            mode->use_intrabc,
+                            !is_inter_block(mode) && mode->filter_intra_mode_info.use_filter_intra,
+                            !is_inter_block(mode) && is_chroma_ref && mode->uv_mode == UV_CFL_PRED,
+                            is_inter_block(mode) && !mode->use_intrabc && mode->is_inter_intra,
+                            is_inter_block(mode) && !mode->use_intrabc && mode->motion_mode == OBMC_CAUSAL,
+                            is_inter_block(mode) && !mode->use_intrabc && mode->motion_mode == WARPED_CAUSAL);
+#endif
 
     /* Initialize block or force splt block tu count to 0*/
     ZERO_ARRAY(parse_ctx->num_tus[AOM_PLANE_Y], 4);
